@@ -312,6 +312,50 @@ def gen_chain_world(rng):
     return w if sites_ok(w) else gen_chain_world(rng)
 
 
+def gen_load_world(rng, placement=None, producer=None, order=None):
+    """directed stratum for C09: one producer of /prod, one reader that loads it.
+    placement: where the load sits (root | helper | kept | datafn); producer: datafn | keep;
+    order: before | after | earlier | never (relative to the reader, in program order)"""
+    placement = placement or rng.choice(["root", "helper", "kept", "datafn"])
+    producer = producer or rng.choice(["datafn", "keep"])
+    order = order or rng.choice(["before", "before", "earlier", "earlier", "after", "never"])
+    vars_ = [["V0", rng.choice(VAR_VALUES)], ["V1", rng.choice(VAR_VALUES)]]
+    fp = {"name": "fp", "params": [], "store_path": "/prod" if producer == "datafn" else None, "tag": "fp#0",
+          "reads": ["V0"], "items": [], "fails": None, "uses_ext": False}
+    noise = {"name": "fn", "params": [], "store_path": None, "tag": "fn#0", "reads": ["V1"], "items": [], "fails": None, "uses_ext": False}
+    load_item = {"k": "load", "path": "/prod"}
+    prod_item = {"k": "call", "f": "fp"} if producer == "datafn" else {"k": "keep", "path": "/prod", "f": "fp", "args": [], "kwargs": []}
+    funs = []
+    root_items = []
+    reader = None
+    if placement == "root":
+        reader_item = load_item
+    elif placement == "helper":
+        reader = {"name": "fr", "params": [], "store_path": None, "tag": "fr#0", "reads": [], "items": [load_item], "fails": None, "uses_ext": False}
+        reader_item = {"k": "call", "f": "fr"}
+    elif placement == "kept":
+        reader = {"name": "fr", "params": [], "store_path": None, "tag": "fr#0", "reads": [], "items": [load_item], "fails": None, "uses_ext": False}
+        reader_item = {"k": "keep", "path": "/reader", "f": "fr", "args": [], "kwargs": []}
+    else:
+        reader = {"name": "fr", "params": [], "store_path": "/reader", "tag": "fr#0", "reads": [], "items": [load_item], "fails": None, "uses_ext": False}
+        reader_item = {"k": "call", "f": "fr"}
+    if rng.random() < 0.5:
+        root_items.append({"k": "call", "f": "fn"})
+    if order == "before":
+        root_items += [prod_item, reader_item]
+    elif order == "after":
+        root_items += [reader_item, prod_item]
+    else:
+        root_items += [reader_item]
+    if rng.random() < 0.5:
+        root_items.append({"k": "call", "f": "fn"})
+    f0 = {"name": "f0", "params": [], "store_path": None, "tag": "f0#0", "reads": [], "items": root_items, "fails": None, "uses_ext": False}
+    funs = [f0] + ([reader] if reader else []) + [fp, noise]
+    w = {"vars": vars_, "funs": funs, "ext_version": 0, "extra": []}
+    meta = {"placement": placement, "producer": producer, "order": order}
+    return w, meta
+
+
 def reachable(world):
     byname = dict((f["name"], f) for f in world["funs"])
     seen = []
